@@ -452,4 +452,38 @@ def rule_f(ctx: Ctx) -> None:
     wildcard_inclusion(ctx, 'C14.f')
 
 
-RULES = [rule_a, rule_b, rule_c, rule_d, rule_e, rule_f]
+def rule_g(ctx: Ctx) -> None:
+    """simpleContent restriction: whenever the base type has simple content, the content type built for the restriction is tested
+    for being derived from the base content (the unchecked construction is for a mixed, emptiable base *without* simple content)."""
+    rule = 'C14.g'
+    from .common import reach_cut
+    f = ctx.idx.method('xmlschema.validators.complex_types.XsdComplexType', '_parse_simple_content_restriction')
+    ctx.analysed(f.qualname)
+    g = cfg_of(ctx, f)
+    builds = [n for n in g.nodes if n.kind == 'stmt' and isinstance(n.ast, ast.Assign) and text(n.ast.targets[0]) == 'self.content'
+              and 'atomic_restriction_class' in text(n.ast.value)]
+    ctx.floor(rule, 'constructions of the restricted simple content', len(builds), 2)
+    hs = [x for x in g.nodes if x.kind == 'if' and text(x.ast.test) == 'base_type.has_simple_content()']
+    nhs = [x for x in g.nodes if x.kind == 'if' and text(x.ast.test) == 'not base_type.has_simple_content()']
+    checks = [x for x in g.nodes if x.kind == 'if' and 'is_derived(base_type.content' in text(x.ast.test)]
+    # a base that accepts only the empty value: the restriction must be empty too (the inclusion test for that case)
+    checks += [x for x in g.nodes if x.kind == 'if' and text(x.ast.test) == 'not self.is_empty()' and ('base_type.is_empty()', 'T') in guards(ctx, f, x)]
+    # nodes reachable from the entry while "the base has simple content" is still possible
+    maybe = reach_cut(g, [g.entry], {(x, 'F') for x in hs} | {(x, 'T') for x in nhs}, kinds='nTF')
+    for n in builds:
+        if n not in maybe:
+            ctx.ob(rule, f'_parse_simple_content_restriction: the unchecked construction (line {n.lineno}) is only for a base without simple content', f.loc(n.ast), True, '',
+                   key=f'simple-content|build|excluded', nontrivial=False)
+            continue
+        # a derivation check follows on every path to the exit
+        w = g.must_pass(n, [g.exit], checks, kinds='nTF') if checks else [n]
+        ok = w is None
+        ctx.ob(rule, '_parse_simple_content_restriction: a content type built for a base with simple content is tested with is_derived(base_type.content, \'restriction\')',
+               f.loc(n.ast), ok, '' if ok else 'this construction is reachable while the base may have simple content and no derivation test follows: a nested simpleType that '
+               'is not derived from the base content (wider bound, other primitive) is accepted - values valid for the restriction are invalid for the base',
+               key='simple-content|build|checked')
+    ctx.explain('C14.g: edge-cut reachability - the constructions of the restricted content reachable without `base_type.has_simple_content()` '
+                'having been found false must be followed by the is_derived(base_type.content, …) test on every path.')
+
+
+RULES = [rule_a, rule_b, rule_c, rule_d, rule_e, rule_f, rule_g]
